@@ -38,6 +38,9 @@ type tcase struct {
 	Conns      []connSpec
 	// EOFWithData: the client's end of stream is reported by the read that returns its last bytes
 	EOFWithData bool
+	// ReadDeadline > 0: the handler behind the throttle arms a read deadline that far ahead before it reads (as the
+	// matching of a following route does, or any handler with read timeouts)
+	ReadDeadline time.Duration
 	// BurstOnly: a burst size is configured and the rate is left at zero, so burst + 0 x T = burst bytes may ever pass
 	BurstOnly bool
 }
@@ -161,6 +164,9 @@ func genCase(t *rapid.T) tcase {
 		tc.Conns = append(tc.Conns, cs)
 	}
 	tc.EOFWithData = rapid.Bool().Draw(t, "eofWithData")
+	if rapid.IntRange(0, 3).Draw(t, "readDeadline") == 0 {
+		tc.ReadDeadline = time.Duration(rapid.IntRange(1, 40).Draw(t, "readDeadlineMs")) * time.Millisecond
+	}
 	// keep the case within about half a second of limiter time: shrink reader buffers whose token cost
 	// (see cost) exceeds what the buckets yield in that time
 	batchCap := 0
@@ -356,6 +362,7 @@ func runCase(t hx.TB, tc tcase, class string) {
 			cx := layer4.WrapConnection(under, make([]byte, 0, 2048), zap.NewNop())
 			tr := rx.NewTrace()
 			tr.ReadBuf = cs.ReadBuf
+			tr.TermDeadline = tc.ReadDeadline
 			rx.Bind(cx, tr)
 			if err := shared.Handle(cx); err != nil {
 				res.err = err.Error()
@@ -384,7 +391,7 @@ func runCase(t hx.TB, tc tcase, class string) {
 		hx.Class("C17/timeout-skipped", 1)
 		return
 	}
-	desc := fmt.Sprintf("rate=%v burst=%d(eff %d) total_rate=%v total_burst=%d(eff %d) latency=%v end-of-stream-with-last-bytes=%v conns=%+v", tc.Rate, tc.Burst, tc.effBurst(), tc.TotalRate, tc.TotalBurst, tc.effTotalBurst(), tc.Latency, tc.EOFWithData, tc.Conns)
+	desc := fmt.Sprintf("rate=%v burst=%d(eff %d) total_rate=%v total_burst=%d(eff %d) latency=%v end-of-stream-with-last-bytes=%v read-deadline=%v conns=%+v", tc.Rate, tc.Burst, tc.effBurst(), tc.TotalRate, tc.TotalBurst, tc.effTotalBurst(), tc.Latency, tc.EOFWithData, tc.ReadDeadline, tc.Conns)
 	waits := 0
 	var all []point
 	var firstAny time.Time
@@ -393,7 +400,8 @@ func runCase(t hx.TB, tc tcase, class string) {
 			hx.Fail(t, "C17", "handle-error", "connection %d: %s\n  %s", i, r.err, desc)
 			return
 		}
-		if !bytes.Equal(r.data, r.stream) {
+		if intact := bytes.Equal(r.data, r.stream) || (tc.ReadDeadline > 0 && bytes.HasPrefix(r.stream, r.data)); !intact {
+			// (with a read deadline the reader may legitimately stop early: what it got must still be the stream's beginning)
 			hx.Fail(t, "C17", "stream-not-intact", "connection %d: the handler behind the throttle read %d bytes, want %d; first difference at %d\n  %s", i, len(r.data), len(r.stream), hx.FirstDiff(r.data, r.stream), desc)
 			return
 		}
